@@ -21,7 +21,7 @@ ASSUMPTIONS = ['at most one instance of a unique middleware type inside any sing
 REQUIRED_REACH = ['constructed', 'requests-on-accepted', 'beh:raise_before', 'beh:raise_after', 'beh:short', 'beh:swallow',
                   'beh:replace', 'beh:short_ctx', 'beh:ep-resp', 'beh:ep-raise', 'beh:rn-raise', 'levels:2', 'levels:3',
                   'dup-unique-across-levels', 'nonreorderable-dup', 'phase-seen:request', 'phase-seen:endpoint',
-                  'phase-seen:render']
+                  'phase-seen:render', 'flavour:base', 'flavour:http']
 NSHARDS = 16
 MW_BEH = ['raise_before', 'raise_after', 'short', 'short_ctx', 'swallow', 'replace']
 
@@ -94,6 +94,12 @@ def make_case(rng, sh):
         ph, fid = rng.pick(funcs)
         beh.setdefault(fid, rng.pick(['raise_after', 'replace', 'swallow']))
     cfg['beh'] = beh
+    # what kind of object a spy returns as "a Response": a werkzeug Response, a bare BaseResponse, or a returned HTTP error
+    cfg['resp_flavour'] = {}
+    for fid, b in beh.items():
+        if b in ('short', 'swallow', 'replace', 'resp') and rng.chance(0.45):
+            cfg['resp_flavour'][fid] = rng.pick(['base', 'http'])
+            sh.hit('flavour:' + cfg['resp_flavour'][fid])
     sh.hit('levels:%d' % nlev)
     for ph, _ in funcs:
         sh.hit('phase-seen:' + ph)
